@@ -33,7 +33,7 @@ REQUIRED = {"supplied_atoms_checked": 2000, "centre_only_residues": 100, "genera
 
 
 def plan(tier, seed):
-    n = 220 if tier == "quick" else 5000
+    n = 500 if tier == "quick" else 5000
     return [["split", i] for i in range(n)] + [["ign", i] for i in range(n // 3)]
 
 
